@@ -149,12 +149,14 @@ def scalar_decompositions(nr, nc):
 
 def twin(name):
     """The same decomposition with the arguments in the other order."""
-    if name == 'whole':
+    if name in ('whole', 'twice', 'cell-twice'):
         return None
     return name[:-1] if name.endswith('r') else name + 'r'
 
 
 def variant_kind(name):
+    if name in ('twice', 'cell-twice'):
+        return 'repeated'
     for k in ('whole', 'rowcut', 'colcut', 'cell', 'extra', 'scalars'):
         if name.startswith(k):
             return 'cut' if k in ('rowcut', 'colcut') else k
@@ -269,7 +271,11 @@ def select(nr, nc, vset):
     decs = decompositions(nr, nc)
     sc = scalar_decompositions(nr, nc)
     if vset == 'all':
-        return decs, sc
+        # a reference written twice addresses its cells twice
+        whole = piece(0, 0, nr - 1, nc - 1)
+        rep = [('twice', [whole, whole]),
+               ('cell-twice', [whole, ('s', 0, 0), ('s', 0, 0)])]
+        return decs + rep, sc
     if vset == 'whole':
         return [d for d in decs if d[0] == 'whole'], []
     if vset == 'splits':
